@@ -181,7 +181,7 @@ func run(r *mon.Run) {
 	r.Assume("rmice.Encode (recursive definition of draft-thomson-http-mice-02/-03) is the reference for stream layout and digest")
 	rsMax := 20
 	if r.Thorough {
-		rsMax = 64
+		rsMax = 128
 	}
 	r.Note("exhaustive_record_size_max", rsMax)
 	r.Exhaustive(true)
@@ -322,7 +322,7 @@ func run(r *mon.Run) {
 	nRand := 300
 	lmax := 64 << 10
 	if r.Thorough {
-		nRand = 6000
+		nRand = 60000
 		lmax = 256 << 10
 	}
 	for i := 0; i < nRand; i++ {
